@@ -65,6 +65,41 @@ def gen(maxuses):
     return g
 
 
+# a parameter of a function-like macro carries the name of a macro (defined before or after it, or only in the `else`
+# part): inside the body the parameter wins
+SHADOW = [
+    # (definitions, number of parameters of W, does the body use # / ##)
+    ("#define A 1\n#define W(A) [A]\n", 1, False),
+    ("#define W(A) [A]\n#define A 1\n", 1, False),
+    ("#define W(B) [B] A\n#define B 7\n#define A 1\n", 1, False),
+    ("#define W(A,B) A - B\n#define B 7\n", 2, False),
+    ("#define A 1\n#define W(A) #A A##A\n#define B 3\n", 1, True),
+    ("#define W(A) G(A)\n#define G(A) <A>\n#define A 9\n#define B 4\n", 1, False),
+    ("#define A 1\n#define W(A) [A]\n#undef A\n", 1, False),
+    ("#define W(x,A) x A\n#define x 2\n#define B x\n", 2, False),
+    ("#define B 3\n#define W(A,B) G(B) G(A)\n#define G(B) <B>\n#define A 9\n", 2, False),
+]
+SHADOW_USES = {1: ["W(5)", "W(A)", "W(B)", "W(W(5))", "W((A))", 'W("A")'], 2: ["W(5,6)", "W(B,A)", "W(A,5)", "W(W(5,6),7)", 'W("A","B")'],
+               0: ["A", "B", "G(B)", "G(5)"]}
+
+
+def gen_shadow(maxuses):
+    def g():
+        buf = []
+        for h, arity, pasting in SHADOW:
+            # macro names / strings handed to # and ## are outside the alphabet (see ASSUMPTIONS)
+            uses = [u for u in SHADOW_USES[arity] if not (pasting and ("A" in u[2:] or "B" in u[2:] or "W" in u[2:]))] + [u for u in SHADOW_USES[0] if "G(" not in u or "G(" in h]
+            for n in range(1, maxuses + 1):
+                for us in itertools.product(uses, repeat=n):
+                    buf.append(h + " ".join(us) + "\n")
+                    if len(buf) >= BATCH:
+                        yield buf
+                        buf = []
+        if buf:
+            yield buf
+    return g
+
+
 INC_DIR = os.path.join(B.BUILD, "scratch", "c13")
 
 
@@ -155,4 +190,6 @@ def check_include(ws, batch):
 
 def spaces(tier):
     return [Space("segments", gen(2 if tier == "quick" else 3), check, variant="fast", describe="header x conditional x use-segment sequences"),
+            Space("parameter-shadows-macro", gen_shadow(2 if tier == "quick" else 3), check, variant="fast",
+                  describe="function-like macros whose parameter names are also macro names (9 definition orders) x sequences of uses (plain, macro-name, nested and string arguments)"),
             Space("include", gen_include()[0], check_include, variant="fast", describe="#include of generated files before/after defines and uses")]
